@@ -26,6 +26,7 @@ import numpy as np
 
 import core
 import comp_common as cc
+import comp_matrix as mx
 
 NONSEP = {"HUE", "SATURATION", "COLOR", "LUMINOSITY", "DARKER_COLOR", "LIGHTER_COLOR"}
 FIXTURE_AREA = 1100 * 1100
@@ -58,6 +59,24 @@ def make_cases(ctx, n_main, n_jumpy):
             hid = [nm for nm in hidden if rng.random() < 0.6]
             kind = "filter-drop" if not hid else "filter-unhide"
             cases.append({"doc": doc, "stream": stream, "variant": kind, "filter": {"hidden_ok": hid, "drop": drop}})
+    return cases
+
+
+def matrix_cases(tier):
+    """the deterministic feature-matrix stream (comp_matrix): independent of VERIF_SEED; every third document also over a
+    translucent backdrop array, documents with hidden layers also through a layer_filter that un-hides them"""
+    cases = []
+    for i, doc in enumerate(mx.matrix_docs(tier)):
+        cases.append({"doc": doc, "stream": "matrix", "variant": "plain"})
+        W, H = doc["size"]
+        if i % 3 == 0:
+            r = np.random.RandomState(7 + i)
+            col = (r.randint(0, 256, size=(H, W, cc.MODE_CH[doc["mode"]])) / 255.0).astype(np.float32)
+            al = (r.choice([0, 77, 128, 255], size=(H, W, 1)) / 255.0).astype(np.float32)
+            cases.append({"doc": doc, "stream": "matrix", "variant": "backdrop", "backdrop": (col, al)})
+        hidden = [n["name"] for n in cc.walk(doc["recipe"]) if not n.get("visible", True)]
+        if hidden and i % 2 == 0:
+            cases.append({"doc": doc, "stream": "matrix", "variant": "filter-unhide", "filter": {"hidden_ok": hidden, "drop": []}})
     return cases
 
 
@@ -206,6 +225,11 @@ def process(ctx, cases, st, label, prop="C11", model=True):
         ctx.hist("colour_mode", doc["mode"])
         for f in cc.features(doc):
             ctx.hist("features", f)
+        if c.get("variant") == "plain":
+            for cell in mx.cells(doc):
+                ctx.hist("matrix", cell)
+                if c.get("stream") != "matrix":
+                    st.setdefault("random_cells", set()).add(cell)
         for b in cc.blend_modes(doc):
             ctx.hist("blend_modes", b)
         ctx.hist("layers", cc.count_layers(doc["recipe"]))
@@ -383,6 +407,9 @@ def run(ctx: core.Run):
     st = {"unstable_px": 0, "px": 0, "spec_da": 0.0, "spec_dc": 0.0, "corr_da": 0.0, "corr_dc": 0.0}
     corpus = json.loads((core.VERIF / "harness" / "corpus" / "C11.json").read_text())
     process(ctx, [case_from_json(j) for j in corpus], st, "corpus")
+    mcases = matrix_cases(ctx.tier)
+    for k in range(0, len(mcases), 600):
+        process(ctx, mcases[k:k + 600], st, "matrix")
     n_main, n_jumpy = (60, 15) if ctx.quick else (1500, 250)
     cases = make_cases(ctx, n_main, n_jumpy)
     for k in range(0, len(cases), 600):
@@ -393,6 +420,16 @@ def run(ctx: core.Run):
     model_self_check(ctx, cases[:6])
     knockout_witness(ctx)
 
+    ncell, zero = mx.coverage(ctx.histograms.get("matrix", {}))
+    _, zero_random = mx.coverage(st.get("random_cells", set()))
+    ctx.extra["feature_matrix"] = {
+        "cells": ncell, "cells_hit": ncell - len(zero), "cells_without_hits": zero,
+        "documents_in_the_deterministic_stream": len({id(c["doc"]) for c in mcases}),
+        "cells_the_seeded_random_stream_alone_missed_in_this_run": len(zero_random),
+        "examples_missed_by_the_random_stream": zero_random[:12],
+        "histogram": "histograms.matrix (hits per cell, plain variant of every corpus / matrix / generated document)"}
+    if zero:
+        ctx.skipped.append(f"{len(zero)} cell(s) of the feature matrix were not exercised: {zero[:10]}")
     ctx.extra["max_abs_diff_model_vs_impl"] = {"alpha_shape": st["corr_da"], "premultiplied_colour": st["corr_dc"]}
     ctx.extra["max_abs_diff_impl_vs_published"] = {"alpha_shape": st["spec_da"], "premultiplied_colour": st["spec_dc"]}
     ctx.extra["pixels_next_to_a_blend_jump_or_steep_slope"] = {"pixels": st["unstable_px"], "of": st["px"]}
@@ -403,6 +440,10 @@ def run(ctx: core.Run):
     ctx.extra["tolerances"] = {"shape_alpha": cc.TOL_ALPHA, "premultiplied_colour": cc.TOL_COLOR, "alpha_min_for_colour": cc.ALPHA_MIN,
                                "stability_probe": {"delta": cc.DELTA_STAB, "limit": cc.STAB_LIMIT}}
     ctx.rule = (
+        "deterministic feature-matrix stream first (comp_matrix.matrix_docs: 3x3 documents covering every cell of comp_matrix.universe() - "
+        "clip runs on every kind of base x modifier x clip-layer kinds x run length 1-3 x context x blend, knockout x element x container, "
+        "group kind x attribute x backdrop x content x nesting, geometry, masks and mask density on layers / groups / clip layers, pixel "
+        "attributes - independent of VERIF_SEED; hits per cell in histograms.matrix, cells without hits in feature_matrix), then the seeded stream: "
         "one case = one call of psd_tools.composite.composite on a generated document (1-8 layers, nesting <= 3, canvas <= 8x8, "
         "colour mode L/RGB/CMYK, boxes inside / straddling / outside the canvas, alpha 0 / partial / 1 / no transparency channel, "
         "opacity, fill opacity, visibility, 19 continuous separable blend modes in the main stream, hard mix + the six non-separable "
